@@ -142,7 +142,7 @@ func runC01(c *core.Ctx, crashes bool) {
 		}
 	}
 
-	steps := 60 + ch.Int(90)
+	steps := (60 + ch.Int(90)) * c.Scale
 	for i := 0; i < steps; i++ {
 		c.Step("c01")
 		switch ch.Pick([]int{30, 25, 35, 5, 5}) {
